@@ -923,7 +923,8 @@ fn derive_dot_expression(
         // Tuple field access by name
         (Shape::Tuple(tshape), Expression::Simple(Value::Str(pi)))
         | (Shape::Tuple(tshape), Expression::Simple(Value::Symbol(pi))) => {
-            for (field_name, field_shape) in tshape.val.iter() {
+            // A copy appends its overrides, so the last field of a name wins.
+            for (field_name, field_shape) in tshape.val.iter().rev() {
                 if field_name.val == pi.val {
                     return field_shape.clone();
                 }
@@ -1128,7 +1129,8 @@ fn resolve_tuple_field(
 ) -> Shape {
     match accessor_expr {
         Expression::Simple(Value::Symbol(pi)) | Expression::Simple(Value::Str(pi)) => {
-            for (field_name, field_shape) in tshape.val.iter() {
+            // A copy appends its overrides, so the last field of a name wins.
+            for (field_name, field_shape) in tshape.val.iter().rev() {
                 if field_name.val == pi.val {
                     return field_shape.clone();
                 }
